@@ -303,7 +303,7 @@ def run_case(grammar, parser, lexer, text, rep='str', window=None, api='parse', 
                 res = list(lk.lex(inp, dont_ignore=True))
                 out.update(kind='ok', result=res)
             elif api == 'scan':
-                res = [(m.start, m.end, m.tree) for m in lk.scan(inp)]
+                res = [(m.range[0], m.range[1], m.value) for m in lk.scan(inp)]
                 out.update(kind='ok', result=res)
         except Exception as e:   # noqa
             out.update(kind='error', error=e, sig=error_sig(e))
@@ -662,6 +662,11 @@ WINDOW_PARTS = ['', 'x', '\n', 'ab\n', '\ncd', 'q\n\nr', '(', 'a b', '\n\n\n', '
 
 
 # ============================================================================================ collector
+def enough(ctx, n=12):
+    """the failing-input search has produced enough unlisted concrete witnesses: stop generating"""
+    return sum(1 for v in ctx.violations if v['found'] and v.get('key') is None) >= n
+
+
 class Collector:
     """runs lark under the tracer, applies the property oracle, accumulates the Coq correspondence cases"""
     def __init__(self, ctx, prefix, oracle, witness, run_witness):
@@ -679,6 +684,10 @@ class Collector:
         toks = result_tokens(out)
         nontriv = len(toks) >= 2 and any((t.line or 0) >= 2 for t in toks)
         outcome = 'ok' if out['kind'] == 'ok' else out['sig'][0]
+        if out['kind'] == 'error' and not outcome.startswith('Unexpected'):
+            note = 'unexpected exception class %s in stream %s (api %s)' % (outcome, stream, api)
+            if note not in ctx.notes:
+                ctx.note(note)
         ctx.count(stream, key=(g, parser, lexer, text, rep, window, api), nontrivial=nontriv,
                   config='%s/%s/%s%s' % (parser, lexer, rep, '/window' if window else ''), outcome=outcome,
                   tokens=min(len(toks), 12), api=api)
